@@ -88,6 +88,7 @@ def cases(draw, tier="quick"):
             P["hs_slow"] = list(P["hs_slow"])
             P["hs_slow"][c_[0]] = "only"
     n = draw(st.integers(0, 220))
+    P["closing_drops"] = draw(st.booleans())   # graceful server closes pass through the WebSocket CLOSING state
     P["tape"] = draw(st.binary(min_size=n, max_size=n))
     return P
 
